@@ -68,6 +68,29 @@ def run(ctx, model_ok):
                                                'pids_names': r['pids_names']},
                                     'why': 'events / tables differ from the records and thread map of the file'})
         coq.append(cc.to_case(g['data'], [len(g['data'])], [r['summary']]))
+    # two requests on one parser object, both created before either is read
+    wf = [g for g in gens if g['kind'] == 'v2' and g['records'] and g['records'][0][0] != 0]
+    preq, pinfo = [], []
+    for a, b in zip(wf[::2], wf[1::2]):
+        preq.append({'pair': [a['data'].hex(), b['data'].hex()]})
+        pinfo.append((a, b))
+    pres = vlib.run_impl('run_container.py', {'cases': preq})['results'] if preq else []
+    ctx.evaluations += len(preq)
+
+    def tables_of(g):
+        tp, pn = {}, {}
+        for tid, pid, name in g['threads']:
+            tp[tid] = pid
+            pn[pid] = name.decode()
+        return [sorted([k, v] for k, v in tp.items()), sorted([k, v] for k, v in pn.items())]
+    for (a, b), rs in zip(pinfo, pres):
+        r = rs[0]
+        if r['err'] is not None or r['after_a'] != tables_of(a) or r['after_b'] != tables_of(b):
+            ctx.failing.append({'input': {'first_file': a['data'].hex(), 'second_file': b['data'].hex(),
+                                          'history': 'both parse() generators created before either is read, same KdBufParser'},
+                                'expected': {'after_first': tables_of(a), 'after_second': tables_of(b)},
+                                'actual': {'after_first': r.get('after_a'), 'after_second': r.get('after_b'), 'err': r['err']},
+                                'why': 'events / tables differ from the records and thread map of the file'})
     # long padding: every length around the page sizes a buffered padding skipper might use (implementation against what the
     # file holds; the first record starts with a non-zero byte)
     lreq, linfo = [], []
